@@ -89,7 +89,7 @@ void materialise(Layout& L) {
 	for (auto& d : L.subdirs) { disk::mkdirs(std::string(kDir) + "/" + d); disk::put(std::string(kDir) + "/" + d + "/inner.txt", prngBytes(1, 5)); }
 	for (auto& a : L.archives) {
 		std::vector<uint8_t> bytes;
-		if (a.clm) { std::vector<ref::ClmMember> ms; for (auto& m : a.members) ms.push_back(ref::ClmMember{m.name, m.data}); bytes = ref::encodeClm(ref::WaveFormat(), ms).bytes; }
+		if (a.clm) { std::vector<ref::ClmMember> ms; for (auto& m : a.members) { ref::ClmMember cmm; cmm.name = m.name; cmm.data = m.data; uint64_t hsh = mix64(fnv1a(reinterpret_cast<const uint8_t*>(m.name.data()), m.name.size()), m.data.size()); if (hsh % 3 == 0) cmm.tailSeed = hsh | 1; ms.push_back(cmm); } bytes = ref::encodeClm(ref::WaveFormat(), ms).bytes; }
 		else {
 			std::vector<ref::VolMember> v;
 			for (auto& m : a.members) { ref::VolMember x; x.name = m.name; x.stored = m.stored; x.size = m.size; x.kind = m.kind; v.push_back(x); }
